@@ -80,7 +80,9 @@ class C20(Check):
             "non-elided path, pushed into a reallocating std::vector, moved between std::optionals, with the source then destroyed or reassigned, "
             "after which the copy / target (and the source when alive) is iterated; MANUAL iteration over begin()/end() of stored adaptors: ++it, it++, "
             "the old value returned by it++, a copied iterator continued next to the original, std::for_each (enumerate iterator: nothing beyond "
-            "the operations it declares), for reverse also ==, std::distance, std::next, copying out; a case is non-trivial when the range has at least one element; distinct = distinct case line")
+            "the operations it declares), for reverse also ==, std::distance, std::next, copying out; ELEMENT TYPES constructible from their own container (std::any, a recursive "
+            "Value(vector<Value>), a type with an initializer_list-of-itself constructor) over lvalue / temporary vectors and lists and braced "
+            "lists, lengths 0..4; a case is non-trivial when the range has at least one element; distinct = distinct case line")
     modelled_note = ("modelled, not verified: overload resolution, lifetime of temporaries, the underlying containers' iterators and "
                      "std::reverse_iterator (a position / a base position in the model)")
 
@@ -140,6 +142,15 @@ class C20(Check):
                     for n in range(0, maxn + 1):
                         for l in [list(range(10, 10 + n))] + [rng.sample(range(-50, 1000), n) for _ in range(max(1, reps // 2))]:
                             yield "mi %s %s %s %s" % (ad, kind, mode, wl(l)), "manual"
+        # ELEMENT TYPES constructible from their own container / initializer list (std::any, a recursive Value, a type with an
+        # initializer_list-of-itself constructor): lvalue, temporary and braced-list ranges, lengths 0..4
+        for ad in ("en", "rv"):
+            for ty in ("any", "val", "ilt"):
+                for kind, modes in (("vec", "lr"), ("list", "lr"), ("il", "r")):
+                    for mode in modes:
+                        for n in range(1 if kind == "il" else 0, 5):
+                            for l in [list(range(10, 10 + n))] + [rng.sample(range(0, 1000), n) for _ in range(1 if tier == "quick" else 5)]:
+                                yield "et %s %s %s %s %s" % (ad, ty, kind, mode, wl(l)), "elemtype"
         # longer ranges for the kinds whose length is not a template parameter
         for _ in range(60 if tier == "quick" else 1500):
             ad = rng.choice(("en", "rv"))
@@ -164,6 +175,8 @@ class C20(Check):
         n = 0 if w[-1] == "." else w[-1].count(",") + 1
         if w[0] in ("mc", "ow"):
             return tuple(w[:4]) + (min(n, 7), iobs.split(" ")[0])
+        if w[0] == "et":
+            return tuple(w[:5]) + (min(n, 7), iobs.split(" ")[0])
         return tuple(w[:-1]) + (min(n, 7), iobs.split(" ")[0])
 
     def shrink(self, case):
@@ -179,7 +192,7 @@ class C20(Check):
                         if len(small) < len(e):
                             yield " ".join(w[:4] + [",".join(m[:i] + [small] + m[i + 1:]) if j == k else (",".join(m) or ".") for j, m in enumerate(ls)])
             return
-        if len(w) not in (4, 5) or w[-1] == ".":
+        if len(w) not in (4, 5, 6) or w[-1] == ".":
             return
         el = w[-1].split(",")
         for i in range(len(el)):
